@@ -8,7 +8,19 @@
 //!   bamz   hex hdr table cuts BGZF-compressed BAM: record reader on top of the BGZF reader;
 //!                             hdr = uncompressed offset of the first record; table = per block
 //!                             "<frame length>:<data hex>" (inflate as a table) -> "H" | "<n>:<stop>"
+//!   bcfeager hex cuts hdr     the same BCF record stream behind its header `hdr`, read by record_bufs
+//!                             (the eager reader, io/reader/record_buf.rs); cuts are relative to the stream
+//!   bcfz   hex hdr table cuts BGZF-compressed BCF read by bcf::io::Reader::new + record_bufs
 //!   bai    hex cuts           BAI index -> "Err" | "Ok:<canonical index>"
+//!   cramc  hex hdrtab cuts    CRAM file read at the container level (read_header, then read_container
+//!                             until it returns 0); hdrtab = one digit per number j of header-container
+//!                             body bytes present (0 accepted, 1 UnexpectedEof, 2 InvalidData: what the
+//!                             real header-body decoder says) -> "<H|h>:<len/nrec/nlandmarks+..|_>:<stop>"
+//!   gzi    hex cuts           gzi index -> "Err" | "Ok:<c>-<u>,.."
+//!   textz  fmt hex hdr table rejected cuts   bgzipped VCF / SAM text (fmt = vcf | sam) read through
+//!                             record_bufs; hdr = length of the header text; rejected = the partial lines
+//!                             the real record parser refuses, "<line hex>:<1|2>;.." (1 UnexpectedEof, 2
+//!                             InvalidData); cuts start where the whole header is delivered -> "H" | "<n>:<stop>"
 //! `cuts` is `all` (every offset 0..=len) or a comma list.  These kinds also carry the L3 verdict.
 //!
 //! Implementation-only oracle:
@@ -742,6 +754,7 @@ fn check_compressed_records(
 }
 
 fn run_bamz(c: &Case) -> Obs {
+    let bcf = c.kind == "bcfz";
     let file = Arc::new(c.b(0));
     let hdr = c.u(1) as usize;
     let cuts = parse_cuts(&c.args[3], file.len());
@@ -749,13 +762,17 @@ fn run_bamz(c: &Case) -> Obs {
     let (stream, _) = bgzf_stream(&file);
     let mut ends = Vec::new();
     let mut at = hdr;
-    while at + 4 <= stream.len() {
+    while at + if bcf { 8 } else { 4 } <= stream.len() {
         let a = u32::from_le_bytes(stream[at..at + 4].try_into().unwrap()) as usize;
-        at += 4 + a;
+        at += if bcf { 8 + a + u32::from_le_bytes(stream[at + 4..at + 8].try_into().unwrap()) as usize } else { 4 + a };
         ends.push(at);
     }
     let mut toks = Vec::new();
-    let (fails, nt) = check_compressed_records("bam", &file, &cuts, hdr, &ends, read_bam, "recordbuf", &mut toks);
+    let (fails, nt) = if bcf {
+        check_compressed_records("bcf", &file, &cuts, hdr, &ends, read_bcf, "recordbuf", &mut toks)
+    } else {
+        check_compressed_records("bam", &file, &cuts, hdr, &ends, read_bam, "recordbuf", &mut toks)
+    };
     Obs { obs: toks.join(" "), verdict: "ok".into(), nontrivial: nt }.with_verdict(first_fail(fails))
 }
 
@@ -861,6 +878,292 @@ fn run_bai(c: &Case) -> Obs {
         }
     }
     Obs { obs: toks.join(" "), verdict: "ok".into(), nontrivial: intact.is_ok() && n_err > 4 }.with_verdict(first_fail(fails))
+}
+
+// ---------------------------------------------------------------------------------------------
+// CRAM at the container level
+
+/// (header read, per container (length, record count, landmark count), stop)
+fn read_cram_containers(p: &[u8]) -> (bool, Vec<(usize, usize, usize)>, Stop) {
+    let mut hdr = false;
+    let mut cs = Vec::new();
+    let r = nv::guarded(AssertUnwindSafe(|| -> std::io::Result<()> {
+        let mut r = cram::io::Reader::new(p);
+        r.read_header()?;
+        hdr = true;
+        let mut c = cram::io::reader::Container::default();
+        loop {
+            let n = r.read_container(&mut c)?;
+            if n == 0 {
+                return Ok(());
+            }
+            cs.push((n, c.header().record_count(), c.header().landmarks().len()));
+        }
+    }));
+    let stop = match r {
+        Outcome::Done(Ok(())) => Stop::Eof,
+        Outcome::Done(Err(e)) => Stop::Err(nv::errkind(&e)),
+        Outcome::Panicked(m) => Stop::Panic(m),
+    };
+    (hdr, cs, stop)
+}
+
+/// length of the header container's header and the declared length of its body (walking the
+/// ITF8/LTF8 fields by their first byte)
+fn cram_header_container_layout(file: &[u8]) -> (usize, usize) {
+    let at0 = 26;
+    let len = i32::from_le_bytes(file[at0..at0 + 4].try_into().unwrap()) as usize;
+    let mut at = at0 + 4;
+    let itf8 = |b: u8| -> usize { if b < 0x80 { 1 } else if b < 0xc0 { 2 } else if b < 0xe0 { 3 } else if b < 0xf0 { 4 } else { 5 } };
+    let ltf8 = |b: u8| -> usize { (b.leading_ones() as usize) + 1 };
+    for i in 0..7 {
+        at += if i == 4 || i == 5 { ltf8(file[at]) } else { itf8(file[at]) };
+    }
+    // landmark count (small) and the landmarks
+    let n = file[at] as usize;
+    assert!(n < 0x80);
+    at += 1;
+    for _ in 0..n {
+        at += itf8(file[at]);
+    }
+    at += 4; // CRC32
+    (at - at0, len)
+}
+
+/// what the real decoder of the header container's body reports when only j bytes of it exist
+fn cram_hdr_body_table(file: &[u8]) -> String {
+    let (hch, len) = cram_header_container_layout(file);
+    (0..len)
+        .map(|j| {
+            let p = &file[26..26 + hch + j];
+            match nv::guarded(|| cram::io::Reader::new(p).read_file_header().map(|_| ())) {
+                Outcome::Done(Ok(())) => '0',
+                Outcome::Done(Err(e)) if e.kind() == std::io::ErrorKind::UnexpectedEof => '1',
+                Outcome::Done(Err(e)) if e.kind() == std::io::ErrorKind::InvalidData => '2',
+                _ => '9',
+            }
+        })
+        .collect()
+}
+
+fn run_cramc(c: &Case) -> Obs {
+    let file = Arc::new(c.b(0));
+    let cuts = parse_cuts(&c.args[2], file.len());
+    let (ih, ics, istop) = read_cram_containers(&file);
+    let intact_ok = ih && istop == Stop::Eof;
+    // container start offsets of the intact file
+    let bounds = cram_boundaries(&file);
+    let res = sweep(&file, &cuts, |p| read_cram_containers(p));
+    let mut toks = Vec::new();
+    let mut fails = Vec::new();
+    let (mut some_items, mut some_err) = (false, false);
+    for (k, r) in res {
+        let Some((h, cs, stop)) = r else {
+            toks.push("Hang".to_string());
+            fails.push(hang("cram", k));
+            break;
+        };
+        let items: Vec<String> = cs.iter().map(|(l, n, m)| format!("{l}/{n}/{m}")).collect();
+        toks.push(format!("{}:{}:{}", if h { "H" } else { "h" }, if items.is_empty() { "_".to_string() } else { items.join("+") }, stop.text()));
+        if let Stop::Panic(m) = &stop {
+            fails.push(("panic-cram".to_string(), format!("cut {k}: {m}")));
+            continue;
+        }
+        if !intact_ok {
+            continue;
+        }
+        some_items |= !cs.is_empty();
+        some_err |= stop.is_err();
+        if !(cs.len() <= ics.len() && cs[..] == ics[..cs.len()]) {
+            fails.push(("cram-truncation-altered-container".to_string(), format!("cut {k}: the {} containers returned are not a prefix of the {} written", cs.len(), ics.len())));
+        } else if k < file.len() && stop == Stop::Eof {
+            let tag = if k + 15 >= file.len() && cs.len() == ics.len() { "cram-truncated-eof-container-body-clean-eof" } else { "cram-truncated-container-clean-eof" };
+            fails.push((tag.to_string(), format!("cut {k} of {}: clean end after {} containers", file.len(), cs.len())));
+        } else if k == file.len() && (stop != Stop::Eof || cs.len() != ics.len()) {
+            fails.push(("cram-intact-file-unreadable".to_string(), format!("cut {k}")));
+        } else if h {
+            // exactly the containers lying wholly inside the cut (bounds: 0, 26, start of each
+            // container behind the header container ..., end of the EOF container)
+            let whole = bounds.iter().skip(3).filter(|&&b| b <= k).count().min(ics.len());
+            if cs.len() != whole {
+                fails.push(("cram-truncation-lost-container".to_string(), format!("cut {k}: {} of {whole} complete containers returned", cs.len())));
+            }
+        }
+    }
+    if !intact_ok {
+        fails.push(("cram-intact-file-unreadable".to_string(), format!("{} containers then {}", ics.len(), istop.text())));
+    }
+    Obs { obs: toks.join(" "), verdict: "ok".into(), nontrivial: intact_ok && some_items && some_err }.with_verdict(first_fail(fails))
+}
+
+/// the eager BCF reader on header ++ stream[..k]: "<n>:<stop>" per cut (cuts relative to the stream)
+fn run_bcf_eager(c: &Case) -> Obs {
+    let stream = c.b(0);
+    let cuts = parse_cuts(&c.args[1], stream.len());
+    let hdr = c.b(2);
+    let mut full = hdr.clone();
+    full.extend_from_slice(&stream);
+    let full = Arc::new(full);
+    let cuts2: Vec<usize> = cuts.iter().map(|k| k + hdr.len()).collect();
+    let intact = read_bcf_raw_eager(&full);
+    let lazy_intact = read_bcf_raw(&stream);
+    let wellformed = intact.hdr && intact.stop == Stop::Eof && lazy_intact.stop == Stop::Eof && intact.items.len() == lazy_intact.items.len();
+    let mut toks = Vec::new();
+    let mut fails = Vec::new();
+    let (mut some_items, mut some_err) = (false, false);
+    let h = hdr.len();
+    for (k2, r) in sweep(&full, &cuts2, move |p| (read_bcf_raw_eager(p), read_bcf_raw(&p[h..]))) {
+        let k = k2 - hdr.len();
+        let Some((out, lazy)) = r else {
+            toks.push("Hang".to_string());
+            fails.push(hang("bcf", k));
+            break;
+        };
+        toks.push(if out.hdr { format!("{}:{}", out.items.len(), out.stop.text()) } else { "H".to_string() });
+        if let Stop::Panic(m) = &out.stop {
+            fails.push(("panic-bcf".to_string(), format!("cut {k} (eager reader): {m}")));
+            continue;
+        }
+        some_items |= !out.items.is_empty();
+        some_err |= out.stop.is_err();
+        // the two paths frame the stream in the same way
+        if wellformed && (out.items.len() != lazy.items.len() || out.stop != lazy.stop) {
+            fails.push(("bcf-eager-lazy-framing-disagreement".to_string(), format!("cut {k}: record_bufs gives {} records then {}, records gives {} then {}", out.items.len(), out.stop.text(), lazy.items.len(), lazy.stop.text())));
+        }
+    }
+    if !wellformed {
+        fails.push(("bcf-intact-file-unreadable".to_string(), format!("eager path: {} items then {}", intact.items.len(), intact.stop.text())));
+    }
+    Obs { obs: toks.join(" "), verdict: "ok".into(), nontrivial: wellformed && some_items && some_err }.with_verdict(first_fail(fails))
+}
+
+/// the partial lines (final line without line feed, as the text reader sees it when the BGZF layer
+/// reports a clean end inside a line) that the real record parser refuses, over all cuts
+fn text_rejected_table(fmt: &str, file: &[u8], text: &[u8], hdr: usize, cuts: &[usize]) -> String {
+    let mut seen: Vec<Vec<u8>> = Vec::new();
+    let mut parts = Vec::new();
+    for &k in cuts {
+        let (stream, stop) = bgzf_stream(&file[..k]);
+        if stop != Stop::Eof || stream.len() <= hdr || stream.len() >= text.len() || *stream.last().unwrap() == b'\n' {
+            continue;
+        }
+        let start = stream.iter().rposition(|&b| b == b'\n').map(|i| i + 1).unwrap_or(0).max(hdr);
+        let partial = stream[start..].to_vec();
+        if seen.contains(&partial) {
+            continue;
+        }
+        seen.push(partial.clone());
+        let mut plain = text[..hdr].to_vec();
+        plain.extend_from_slice(&partial);
+        let out = if fmt == "vcf" {
+            collect(|hdr, items| {
+                let mut r = vcf::io::Reader::new(&plain[..]);
+                let h = r.read_header()?;
+                *hdr = true;
+                for rec in r.record_bufs(&h) {
+                    items.push(render(&rec?));
+                }
+                Ok(())
+            })
+        } else {
+            collect(|hdr, items| {
+                let mut r = sam::io::Reader::new(&plain[..]);
+                let h = r.read_header()?;
+                *hdr = true;
+                for rec in r.record_bufs(&h) {
+                    items.push(render(&rec?));
+                }
+                Ok(())
+            })
+        };
+        match out.stop {
+            Stop::Err(ref kd) if kd == "UnexpectedEof" => parts.push(format!("{}:1", hex(&partial))),
+            Stop::Err(_) => parts.push(format!("{}:2", hex(&partial))),
+            _ => {}
+        }
+    }
+    if parts.is_empty() { "_".to_string() } else { parts.join(";") }
+}
+
+fn run_textz(c: &Case) -> Obs {
+    let fmt = if c.args[0] == "vcf" { "vcfgz" } else { "samgz" };
+    let file = Arc::new(c.b(1));
+    let cuts = parse_cuts(&c.args[5], file.len());
+    let reader: fn(&[u8]) -> ReadOut = if fmt == "vcfgz" { read_vcfgz } else { read_samgz };
+    let intact = reader(&file);
+    let (full_stream, fstop) = bgzf_stream(&file);
+    let wellformed = intact.hdr && intact.stop == Stop::Eof && fstop == Stop::Eof;
+    let total_lines = full_stream.iter().filter(|&&b| b == b'\n').count();
+    let hdr_lines = total_lines.saturating_sub(intact.items.len());
+    let mut toks = Vec::new();
+    let mut fails = Vec::new();
+    let (mut some_items, mut some_err) = (false, false);
+    for (k, r) in sweep(&file, &cuts, move |p| (reader(p), bgzf_stream(p))) {
+        let Some((out, (stream, bstop))) = r else {
+            toks.push("Hang".to_string());
+            fails.push(hang(fmt, k));
+            break;
+        };
+        toks.push(if out.hdr { format!("{}:{}", out.items.len(), out.stop.text()) } else { "H".to_string() });
+        if !wellformed {
+            continue;
+        }
+        some_items |= !out.items.is_empty();
+        some_err |= out.stop.is_err();
+        let mid_line = bstop == Stop::Eof && stream.len() < full_stream.len() && !stream.is_empty() && *stream.last().unwrap() != b'\n';
+        let spec = RecordSpec { fmt, orig: &intact.items, text: mid_line };
+        if let Err(f) = check_prefix(&spec, k, &out) {
+            fails.push(f);
+            continue;
+        }
+        if out.hdr && out.stop == Stop::Eof {
+            let lines = stream.iter().filter(|&&b| b == b'\n').count();
+            if lines >= hdr_lines && out.items.len() < lines - hdr_lines {
+                fails.push((format!("{fmt}-truncation-lost-record"), format!("cut {k}: {} of {} complete lines returned", out.items.len(), lines - hdr_lines)));
+            }
+        }
+    }
+    if !wellformed {
+        fails.push((format!("{fmt}-intact-file-unreadable"), format!("{} items then {}", intact.items.len(), intact.stop.text())));
+    }
+    Obs { obs: toks.join(" "), verdict: "ok".into(), nontrivial: wellformed && some_items && some_err }.with_verdict(first_fail(fails))
+}
+
+fn run_gzi(c: &Case) -> Obs {
+    let file = Arc::new(c.b(0));
+    let cuts = parse_cuts(&c.args[1], file.len());
+    let rd = |p: &[u8]| -> Result<String, Stop> {
+        match nv::guarded(|| bgzf::gzi::io::Reader::new(p).read_index()) {
+            Outcome::Done(Ok(i)) => Ok(i.as_ref().iter().map(|(a, b)| format!("{a}-{b}")).collect::<Vec<_>>().join(",")),
+            Outcome::Done(Err(e)) => Err(Stop::Err(nv::errkind(&e))),
+            Outcome::Panicked(m) => Err(Stop::Panic(m)),
+        }
+    };
+    let intact = rd(&file);
+    let mut toks = Vec::new();
+    let mut fails = Vec::new();
+    let mut n_err = 0;
+    for (k, r) in sweep(&file, &cuts, rd) {
+        let Some(r) = r else {
+            toks.push("Hang".to_string());
+            fails.push(hang("gzi", k));
+            break;
+        };
+        toks.push(match &r {
+            Ok(s) => format!("Ok:{s}"),
+            Err(Stop::Panic(_)) => "Panic".to_string(),
+            Err(_) => "Err".to_string(),
+        });
+        n_err += r.is_err() as usize;
+        match (&r, &intact) {
+            (Err(Stop::Panic(m)), _) => fails.push(("panic-gzi".to_string(), format!("cut {k}: {m}"))),
+            (Ok(_), Ok(_)) if k < file.len() => fails.push(("index-truncation-accepted".to_string(), format!("gzi cut {k} of {}: an index is returned without error", file.len()))),
+            (Ok(a), Ok(b)) if a != b => fails.push(("index-truncation-accepted".to_string(), format!("gzi cut {k}: a different index is returned"))),
+            (Err(_), Ok(_)) if k == file.len() => fails.push(("gzi-intact-file-unreadable".to_string(), format!("cut {k}"))),
+            _ => {}
+        }
+    }
+    Obs { obs: toks.join(" "), verdict: "ok".into(), nontrivial: intact.is_ok() && n_err > 0 }.with_verdict(first_fail(fails))
 }
 
 // ---------------------------------------------------------------------------------------------
@@ -1179,8 +1482,12 @@ fn run(c: &Case) -> Obs {
     match c.kind.as_str() {
         "bamraw" | "bcfraw" => run_raw(&c.kind, c),
         "bgzf" => run_bgzf(c),
-        "bamz" => run_bamz(c),
+        "bamz" | "bcfz" => run_bamz(c),
+        "bcfeager" => run_bcf_eager(c),
         "bai" => run_bai(c),
+        "cramc" => run_cramc(c),
+        "gzi" => run_gzi(c),
+        "textz" => run_textz(c),
         "file" => run_file(c),
         _ => Obs { obs: "-".into(), verdict: "skip".into(), nontrivial: false },
     }
@@ -1218,7 +1525,8 @@ fn generate(rng: &mut Rng, tier: &str, w: &mut CaseWriter) {
         let (raw, hdr, _) = files::bcf_raw(&text);
         let stream = &raw[hdr..];
         let cuts = if stream.len() <= 4096 { "all".to_string() } else { fmt_cuts(&choose_cuts(rng, stream.len(), &[], 200)) };
-        w.push("bcfraw", vec![hex(stream), cuts, hex(&raw[..hdr])]);
+        w.push("bcfraw", vec![hex(stream), cuts.clone(), hex(&raw[..hdr])]);
+        w.push("bcfeager", vec![hex(stream), cuts, hex(&raw[..hdr])]);
     }
     // a few malformed streams: zero length prefix in the middle, a length running past the end,
     // a record shorter than the fixed BAM fields
@@ -1277,12 +1585,72 @@ fn generate(rng: &mut Rng, tier: &str, w: &mut CaseWriter) {
         w.push("bamz", vec![hex(&file), hdr.to_string(), inflate_table(&file), cuts]);
     }
 
+    // --- modelled: BCF over BGZF through record_bufs, block breaks at arbitrary offsets
+    for _ in 0..(8 * scale) {
+        let n = rng.range(1, 12);
+        let text = files::vcf_text(rng, n, false);
+        let (raw, hdr, _) = files::bcf_raw(&text);
+        let breaks = files::random_breaks(rng, raw.len(), 5);
+        let file = files::bgzip(&raw, &breaks, rng.chance(3, 4));
+        let cuts = if file.len() <= 4096 { "all".to_string() } else { fmt_cuts(&choose_cuts(rng, file.len(), &files::bgzf_boundaries(&file), 100)) };
+        w.push("bcfz", vec![hex(&file), hdr.to_string(), inflate_table(&file), cuts]);
+    }
+
     // --- modelled: BAI
     for _ in 0..(12 * scale) {
         let ix = files::bai_index(rng, true);
         let file = files::bai_file(&ix);
         let cuts = if file.len() <= 4096 { "all".to_string() } else { fmt_cuts(&choose_cuts(rng, file.len(), &[file.len() - 8], 300)) };
         w.push("bai", vec![hex(&file), cuts]);
+    }
+
+    // --- modelled: CRAM at the container level (file definition, header container, 1..n data
+    // containers, EOF container), every cut when small
+    for i in 0..(8 * scale) {
+        let (p, q) = match i % 4 {
+            0 => (1, 0),
+            1 => (rng.range(2, 9), rng.range(1, 3)),
+            2 => (rng.range(3, 12), rng.range(1, 4)),
+            _ => (rng.range(1, 30), 0),
+        };
+        let text = files::sam_text(rng, p, true, false);
+        let file = files::cram_file(&text, q as usize);
+        let cuts = if file.len() <= 4096 { "all".to_string() } else { fmt_cuts(&choose_cuts(rng, file.len(), &cram_boundaries(&file), 150)) };
+        w.push("cramc", vec![hex(&file), cram_hdr_body_table(&file), cuts]);
+    }
+
+    // --- modelled: bgzipped VCF / SAM text through record_bufs, block breaks at arbitrary offsets
+    // (lines straddle blocks); cuts from the point where the whole header is delivered
+    for i in 0..(10 * scale) {
+        let vcf = i % 2 == 0;
+        let n = rng.range(1, 10);
+        let text = if vcf { files::vcf_text(rng, n, false) } else { files::sam_text(rng, n, false, false) };
+        // header text = the leading lines that start with '#' / '@'
+        let mut hdr = 0;
+        while hdr < text.len() && text[hdr] == if vcf { b'#' } else { b'@' } {
+            hdr += text[hdr..].iter().position(|&b| b == b'\n').unwrap() + 1;
+        }
+        let breaks = files::random_breaks(rng, text.len(), 5);
+        let file = files::bgzip(&text, &breaks, rng.chance(3, 4));
+        let b = files::bgzf_boundaries(&file);
+        // first block boundary at which at least hdr bytes have been delivered
+        let mut first = file.len();
+        for &x in &b[1..] {
+            if bgzf_stream(&file[..x]).0.len() >= hdr {
+                first = x;
+                break;
+            }
+        }
+        let cuts: Vec<usize> = if file.len() <= 4096 { (first..=file.len()).collect() } else { choose_cuts(rng, file.len(), &b, 100).into_iter().filter(|&k| k >= first).collect() };
+        let fmt = if vcf { "vcf" } else { "sam" };
+        let rejected = text_rejected_table(fmt, &file, &text, hdr, &cuts);
+        w.push("textz", vec![fmt.into(), hex(&file), hdr.to_string(), inflate_table(&file), rejected, fmt_cuts(&cuts)]);
+    }
+
+    // --- modelled: gzi
+    for _ in 0..(8 * scale) {
+        let file = files::gzi_file(rng);
+        w.push("gzi", vec![hex(&file), "all".into()]);
     }
 
     // --- implementation-only: every format, files built in `run` from the seed
